@@ -281,8 +281,18 @@ def union_worker(args):
     res = report.WorkResult('alternatives %s' % args['label'])
     world.start_function_trace()
     res.sites.add('alternatives')
-    for alts in args['lists']:
+    for li, alts in enumerate(args['lists']):
         text = 'time at %s on all' % ' or '.join(alts)
+        if li < 12:
+            # the wait survives unit switches before and after the pattern is set, in every direction
+            for pre_, post_ in (('units raw ', 'units logical '), ('', 'units raw '), ('units rgb ', 'units raw units rgb '), ('units raw ', 'units rgb units raw ')):
+                t2 = '%stime at %s %son all' % (pre_, ' or '.join(alts), post_)
+                waits2, net2, prog2 = run_script_patterns(t2)
+                res.nontrivial += 1
+                if waits2 is None or net2.aborted or len(waits2) != 1 or not any(e[0] == 'all_power' for e in net2.trace):
+                    res.violation('alternatives|unit switches', 'the wait of %r is lost or the script stops: waits %r, %s'
+                                  % (t2, waits2, net2.aborted if waits2 is not None else prog2), inputs={'script': t2}, replayed=True)
+                    break
 
         def factory():
             waits, net, prog = run_script_patterns(text)
